@@ -74,7 +74,7 @@ func gen(t *rapid.T) Case {
 	ox := rapid.SampledFrom([]float64{0, 0, 1000, -50}).Draw(t, "ox")
 	A := vkit.GenPolygonal(t, ka, ox, ox/2, R, snap)
 	c.A = A.G
-	c.Config = rapid.SampledFrom([]string{"overlap", "overlap", "overlap", "nested", "inhole", "diagonal", "bboxdisjoint", "far", "sliver", "sliver"}).Draw(t, "config")
+	c.Config = rapid.SampledFrom([]string{"overlap", "overlap", "overlap", "nested", "inhole", "diagonal", "bboxdisjoint", "far", "sliver", "sliver", "speck"}).Draw(t, "config")
 	if c.Config == "sliver" {
 		// a long thin hole (a canal) through the middle of A, and a box (or small polygon) laid across it: the corners of B
 		// are inside A, no vertex of A is inside B, yet A's boundary passes through B
@@ -146,6 +146,14 @@ func gen(t *rapid.T) Case {
 	case "far":
 		RB = R * rapid.Float64Range(0.3, 1).Draw(t, "RB")
 		bx, by = A.Cx+1000*R*math.Cos(ang), A.Cy+1000*R*math.Sin(ang)
+	case "speck":
+		// B is 1e4 to 1e9 times smaller than A: inside A (clear of its boundary), or just outside it
+		RB = R * math.Pow(10, -float64(rapid.IntRange(4, 9).Draw(t, "speckexp")))
+		d := A.Rin * rapid.Float64Range(0, 0.5).Draw(t, "d")
+		if rapid.Bool().Draw(t, "speckoutside") {
+			d = R * rapid.Float64Range(1.1, 1.6).Draw(t, "dout")
+		}
+		bx, by = A.Cx+d*math.Cos(ang), A.Cy+d*math.Sin(ang)
 	}
 	c.B = vkit.GenPolygonal(t, kb, bx, by, RB, snap).G
 	// spellings the library itself produces or accepts: the rings of a multi-polygon listed in ONE Polygon value (what
@@ -636,6 +644,34 @@ func run(c Case) (v vkit.Verdict) {
 			if !(bad <= tol) { // NaN-safe
 				return fmt.Sprintf(phase+"%s.%s(%s): region where the result disagrees with the point-set definition has area %.6g (expected result area %.6g, result area %.6g, tol %.3g); "+
 					"largest piece around (%v, %v); result=%v", ta, opNames[op], tb, bad, expected, areaR[op], tol, wx, wy, pr)
+			}
+			// (2b) points at each operand's OWN scale (around the middle of its first ring): an operand may be a speck next
+			// to the other one, and no cell of the sweep that is large enough to be sampled lies inside it
+			for oi, po := range [][][][]vkit.P2{pa, pb} {
+				if len(po) == 0 || len(po[0]) == 0 || len(po[0][0]) < 3 {
+					continue
+				}
+				r := po[0][0]
+				x0, y0, x1, y1 := bbox(po)
+				own := math.Max(x1-x0, y1-y0)
+				var mx, my float64
+				for _, q := range r {
+					mx, my = mx+float64(q[0])/float64(len(r)), my+float64(q[1])/float64(len(r))
+				}
+				probes := []vkit.P2{vkit.MkP(mx, my)}
+				for k := 0; k < len(r) && k < 6; k++ {
+					probes = append(probes, vkit.MkP((mx+float64(r[k][0]))/2, (my+float64(r[k][1]))/2))
+				}
+				for _, p := range probes {
+					if vkit.MinDistToEdges(p, ea) <= 1e-3*own || vkit.MinDistToEdges(p, eb) <= 1e-3*own {
+						continue
+					}
+					inA, inB := vkit.PIP(p, pa) == vkit.Inside, vkit.PIP(p, pb) == vkit.Inside
+					st := vkit.PIP(p, pr)
+					if want := opTruth(op, inA, inB); (st == vkit.Inside) != want {
+						return fmt.Sprintf(phase+"%s.%s(%s): point %v (near the middle of operand %d, which is %.3g across) inA=%v inB=%v but in result=%v", ta, opNames[op], tb, p, oi, own, inA, inB, st)
+					}
+				}
 			}
 			// (2) the literal statement on test points with a clear margin from every input edge
 			for _, q := range pts {
